@@ -367,6 +367,8 @@ contract(TS + "reset_initial_conditions.py", "reset_initial_conditions#body",
          returns=[("NewCond", ("Param", "InitCond")), ("ps", ("Param", "ParamStruct"))],
          ensures=[
              ("C08.reset_counters_zero", " and ".join("NewCond.%s == 0" % f for f in _RESET_ZERO)),
+             ("C13.reset_clears_the_seasonal_irrigation_counters", "NewCond.irr_cum == 0 and NewCond.irr_net_cum == 0"),
+             ("C07.reset_clears_crop_dead_and_maturity", "not NewCond.crop_dead and not NewCond.crop_mature and not NewCond.harvest_flag and NewCond.dap == 0"),
              ("C08.reset_flags_false", " and ".join("not NewCond.%s" % f for f in _RESET_FALSE)),
              ("C08.reset_factors_one", " and ".join("NewCond.%s == 1" % f for f in _RESET_ONE)),
              ("C08.reset_crop_dependent", "NewCond.cc0_adj == %s.CC0 and NewCond.HIfinal == %s.HI0 and not NewCond.protected_seed" % (_SCROP, _SCROP)),
